@@ -30,7 +30,7 @@ ASSUMPTIONS = [
 ]
 TIERS = {
     "quick": {"shards": 16, "cases": 1600, "timeout": 300},
-    "thorough": {"shards": 16, "cases": 40000, "timeout": 3000},
+    "thorough": {"shards": 16, "cases": 60000, "timeout": 3000},
 }
 FLOORS = {
     "quick": {"counts": {"shapes_checked": 1200, "vertices_checked": 50000,
